@@ -39,7 +39,7 @@ m = {
                  "kind_free_text": "Coq 8.16 theorems over a hand-written Gallina model + generated tables (translator), tied to /repo by differential correspondence of the extracted model (OCaml) against the real library (Rust harness serving the model's oracles with the real primitives)"}],
     "checks": checks,
     "not_applicable": na,
-    "notes": "See DESIGN.md. known_findings.json lists D1 (C01, cannot be repaired without breaking the pinned suite) and the three fix: commits.",
+    "notes": "See DESIGN.md. known_findings.json lists D1 (C01, cannot be repaired without breaking the pinned suite: the suite encodes the defect) and the seven fix: commits in /repo (731ed53, da3e440, ab19220, 048e3ff, daf7c42, 10e7b07, ed52ae4). seeded/ holds 42 seeded changes, 8 reverse patches of fixes and 4 behaviour-preserving refactorings with the checks that catch / stay silent on them (bin/seed_regression re-runs them all).",
 }
 json.dump(m, open(os.path.join(VERIF, 'MANIFEST.json'), 'w'), indent=1)
 print("manifest:", len(checks), "checks,", len(na), "not claimed")
